@@ -74,6 +74,7 @@ type Options struct {
 	Patches    []Patch
 	SeamsDir   string // directory with added files, mirrored onto the repository tree
 	ExtraAllow []string
+	Racy       bool // insert statement-level scheduling points (simrt.Y) into the instrumented packages
 	Log        io.Writer
 }
 
@@ -201,7 +202,7 @@ func Run(o Options) (string, *Stats, error) {
 			return "", nil, err
 		}
 		for i, f := range files[:nOwn] {
-			rw := &rewriter{fset: fset, info: info, file: f, relFile: filepath.ToSlash(filepath.Join(rel, names[i])), st: st}
+			rw := &rewriter{fset: fset, info: info, file: f, relFile: filepath.ToSlash(filepath.Join(rel, names[i])), st: st, racy: o.Racy}
 			rw.rewriteFile()
 			var buf bytes.Buffer
 			if err := format.Node(&buf, fset, f); err != nil {
@@ -283,8 +284,9 @@ type rewriter struct {
 	st      *Stats
 	n       int
 	needRT  bool
+	racy    bool
 
-	skip      map[ast.Node]bool      // select comm statements and their channel ops
+	skip      map[ast.Node]bool       // select comm statements and their channel ops
 	recv2     map[*ast.UnaryExpr]bool // receive used in a two-value context
 	noWrap    map[*ast.CallExpr]bool  // calls of defer/go statements
 	rangeKind map[*ast.RangeStmt]int  // 1 chan, 2 map
@@ -411,6 +413,9 @@ func (r *rewriter) rewriteFile() {
 		}
 	}
 
+	if r.racy {
+		r.addYields()
+	}
 	astapply.Apply(f, r.pre, r.post)
 
 	// imports whose only uses were replaced become blank imports
@@ -456,6 +461,44 @@ func (r *rewriter) rewriteFile() {
 		decls = append(decls, f.Decls[idx:]...)
 		f.Decls = decls
 	}
+}
+
+// addYields inserts a statement-level scheduling point (simrt.Y) before every statement of
+// every function body.  It runs on the original tree, before the other rewrites, so that the
+// code those generate (the select protocol in particular) is never split.
+func (r *rewriter) addYields() {
+	clauses := map[*ast.BlockStmt]bool{}
+	ast.Inspect(r.file, func(n ast.Node) bool {
+		switch b := n.(type) {
+		case *ast.SelectStmt:
+			clauses[b.Body] = true
+		case *ast.SwitchStmt:
+			clauses[b.Body] = true
+		case *ast.TypeSwitchStmt:
+			clauses[b.Body] = true
+		case *ast.BlockStmt:
+			if !clauses[b] {
+				b.List = r.withYields(b.List)
+			}
+		case *ast.CaseClause:
+			b.Body = r.withYields(b.Body)
+		case *ast.CommClause:
+			b.Body = r.withYields(b.Body)
+		}
+		return true
+	})
+}
+
+func (r *rewriter) withYields(list []ast.Stmt) []ast.Stmt {
+	out := make([]ast.Stmt, 0, 2*len(list))
+	for _, st := range list {
+		if _, empty := st.(*ast.EmptyStmt); !empty {
+			out = append(out, &ast.ExprStmt{X: r.call("Y", r.site(st))})
+			r.st.Sites["stmt-yield"]++
+		}
+		out = append(out, st)
+	}
+	return out
 }
 
 func (r *rewriter) pre(c *astapply.Cursor) bool {
